@@ -145,7 +145,7 @@ func corrDiff(c *Case, o *Obs, m *MObs) string {
 	if c.Upd {
 		switch m.Change {
 		case "untouched":
-			if string(o.FileAfter) != string(c.fileBytes()) {
+			if string(o.FileAfter) != string(c.fileBytes()) || o.Written {
 				return "file-change"
 			}
 		case "error":
@@ -220,6 +220,10 @@ func oracleDiff(c *Case, o *Obs, ex *Expect) string {
 			return "custom-command-replaced-" + strings.TrimPrefix(p, "SHADOW-REACHED:")
 		}
 	}
+	// without UpdateScripts the script file is never written, whatever the script does
+	if !c.Upd && o.FileAfter != nil && (o.Written || string(o.FileAfter) != string(c.fileBytes())) {
+		return "script-file-written-without-UpdateScripts"
+	}
 	if ex == nil || !ex.Known {
 		return ""
 	}
@@ -262,7 +266,8 @@ func caseJSON(c *Case) string {
 
 func (rn *runner) input(c *Case) map[string]string {
 	return map[string]string{"case": caseJSON(c), "script": string(c.fileBytes()), "script_hex": common.Hex(c.fileBytes()),
-		"params": fmt.Sprintf("ContinueOnError=%v RequireExplicitExec=%v RequireUniqueNames=%v UpdateScripts=%v Cmds=%v Condition=%v", c.Coe, c.Ree, c.Uniq, c.Upd, c.Cmds, c.HasCond)}
+		"params": fmt.Sprintf("ContinueOnError=%v RequireExplicitExec=%v RequireUniqueNames=%v UpdateScripts=%v Cmds=%v Condition=%v Deadline=%s", c.Coe, c.Ree, c.Uniq, c.Upd, c.Cmds, c.HasCond,
+			map[int]string{0: "none", 1: fmt.Sprintf("%d ms after the start (the helper's `sleep` lasts 10 s)", max(c.DLms, 2000)), 2: "one hour away"}[c.DL])}
 }
 
 var shrinkBudget = map[string]int{}
@@ -270,6 +275,18 @@ var shrinkBudget = map[string]int{}
 // shrink minimises the lines (then the files) of c while bad stays true.
 func shrinkCase(c *Case, bad func(*Case) bool) *Case {
 	cur := *c
+	if cur.RawHex != "" {
+		// the respelled file text stands for Lines and Files: shrink only when it is not needed
+		t := cur
+		t.RawHex = ""
+		if !bad(&t) {
+			return &cur
+		}
+		cur = t
+	}
+	if cur.DL == 1 && len(cur.Lines) > 14 {
+		return &cur // every evaluation waits for a deadline
+	}
 	with := func(lines []string, files []AFile) *Case {
 		t := cur
 		t.Lines, t.Files = lines, files
@@ -288,11 +305,20 @@ func shrinkCase(c *Case, bad func(*Case) bool) *Case {
 	return &cur
 }
 
+// slowReports bounds the work spent on findings whose every re-run waits for a deadline.
+var slowReports = map[string]int{}
+
 func (rn *runner) reportOracle(oc *outcome, name string) {
 	rn.res.Count("oracle-fails:" + strings.SplitN(name, ":", 2)[0])
+	if oc.c.DL == 1 {
+		if slowReports["o"]++; slowReports["o"] > 2 {
+			rn.res.Count("oracle-fails:not-re-run (two findings of the deadline family are reported in full)")
+			return
+		}
+	}
 	// timing protection: the same judgement must come out of two more runs
 	for i := 0; i < 2; i++ {
-		again := rn.run(oc.c)
+		again := rn.run(withDeadlineRetry(oc.c, i))
 		if oracleDiff(oc.c, again.o, oc.ex) == "" {
 			rn.res.Count("oracle-flake")
 			return
@@ -302,9 +328,6 @@ func (rn *runner) reportOracle(oc *outcome, name string) {
 	if shrinkBudget["o"]++; shrinkBudget["o"] <= 4 {
 		c = shrinkCase(oc.c, func(t *Case) bool {
 			ex := evaluate(t)
-			if !ex.Known && !t.Shadow {
-				return false
-			}
 			r := rn.run(t)
 			return oracleDiff(t, r.o, ex) != ""
 		})
@@ -334,8 +357,14 @@ func tail(s string, n int) string {
 
 func (rn *runner) reportCorr(oc *outcome, name string) {
 	rn.res.Count("mismatch:" + name)
+	if oc.c.DL == 1 {
+		if slowReports["c"]++; slowReports["c"] > 1 {
+			rn.res.Count("mismatch:not-re-run (one mismatch of the deadline family is reported in full)")
+			return
+		}
+	}
 	for i := 0; i < 2; i++ {
-		again := rn.run(oc.c)
+		again := rn.run(withDeadlineRetry(oc.c, i))
 		if corrDiff(oc.c, again.o, again.m) == "" {
 			rn.res.Count("mismatch-flake")
 			return
@@ -380,6 +409,15 @@ func (rn *runner) judge(oc *outcome) {
 	res.Count(fmt.Sprintf("lines:%02d-%02d", len(c.Lines)/5*5, len(c.Lines)/5*5+4))
 	if c.Coe {
 		res.Count("params:ContinueOnError")
+	}
+	if c.DL != 0 {
+		res.Count(map[int]string{1: "params:Deadline-short (reached while blocked on the sleeping helper)", 2: "params:Deadline-far"}[c.DL])
+	}
+	if c.RawHex != "" {
+		res.Count("script-file:not-canonical (marker spelling, CR LF, no final newline)")
+	}
+	if o.Written {
+		res.Count("script-file:written")
 	}
 	if c.Kind == "wild" {
 		res.Count(fmt.Sprintf("wild:lines-failing=%d-of-%d0%%", 0, 0)[:0] + fmt.Sprintf("wild:share-of-lines-failing:%d0%%", min(9, 10*len(o.FailLines)/max(1, len(c.Lines)))))
@@ -575,6 +613,18 @@ func realMain() int {
 			fmt.Fprintln(os.Stderr, err)
 			return 2
 		}
+		if bj := rp.Violation.Input["batch"]; bj != "" && prop != "C16" {
+			var b Batch
+			if err := json.Unmarshal([]byte(bj), &b); err != nil || len(b.Cases) == 0 {
+				fmt.Fprintln(os.Stderr, "replay file has no batch:", err)
+				return 2
+			}
+			x, y := rn.runBatchBoth(&b)
+			rn.judgeBatchT(&b, x, y)
+			res.Rule = "replay of one recorded batch"
+			res.Write(f.Out)
+			return 0
+		}
 		var c Case
 		if err := json.Unmarshal([]byte(rp.Violation.Input["case"]), &c); err != nil {
 			fmt.Fprintln(os.Stderr, "replay file has no case:", err)
@@ -619,6 +669,17 @@ func realMain() int {
 		cases = append(cases, genWild(r.Fork(), fmt.Sprintf("w%05d", i)))
 		pls = append(pls, nil)
 	}
+	// two more dimensions on the same scripts: a deadline that is never reached, and a script file
+	// that is not spelled the way txtar.Format would spell it (same Parse): neither may change anything
+	vr := r.Fork()
+	for i, c := range cases {
+		if vr.Chance(1, 5) {
+			c.DL = 2
+		}
+		if vr.Chance(1, 6) {
+			cases[i] = nonCanonical(vr, c)
+		}
+	}
 	for lo := 0; lo < len(cases); lo += 500 {
 		hi := min(lo+500, len(cases))
 		rn.runAll(cases[lo:hi], pls[lo:hi])
@@ -649,6 +710,13 @@ func realMain() int {
 				Detail: tail(o.Log, 600)})
 		}
 	}
+	// 2b'. runs with a deadline that IS reached, and several scripts in one RunT call
+	nDL, nBT := 72, 48
+	if f.Tier == "thorough" {
+		nDL, nBT = 1200, 900
+	}
+	rn.deadlineMain(r.Fork(), nDL)
+	rn.batchMain(r.Fork(), nBT)
 	// 2c. the regular-expression fragment of the model against Go's regexp
 	nRe := 30000
 	if f.Tier == "thorough" {
@@ -657,7 +725,7 @@ func realMain() int {
 	rn.regexMain(r.Fork(), nRe)
 	// 3. the built cmd/testscript binary
 	rn.cliMain(r.Fork(), nBatch)
-	res.Rule = fmt.Sprintf("corpus (%d), %d constructive scripts of 1-25 lines built with the independent evaluator (planted failing line in ~60%%, stop/skip in ~25%%, all Params), %d wild scripts over the whole vocabulary (model comparison only), %d batches through the built cmd/testscript binary; a case is non-trivial when it has >= 2 lines or does not pass; distinct = distinct (script, verdict, failing lines)", len(corpus), nCons, nWild, nBatch)
+	res.Rule = fmt.Sprintf("corpus (%d), %d constructive scripts of 1-25 lines built with the independent evaluator (planted failing line in ~60%%, stop/skip in ~25%%, all Params; 1/5 with a deadline never reached, 1/6 with a non-canonical script file), %d wild scripts over the whole vocabulary (model comparison only), %d scripts under a deadline that is reached while they block on the sleeping helper (foreground, negated, registered command, wait) plus controls, %d RunT calls over 2-4 scripts (sequential / parked / free-running T, with and without deadline, work directories kept and removed) each script compared with its run alone, %d batches through the built cmd/testscript binary; a case is non-trivial when it has >= 2 lines or does not pass; distinct = distinct (script, verdict, failing lines)", len(corpus), nCons, nWild, nDL, nBT, nBatch)
 	res.Write(f.Out)
 	return 0
 }
